@@ -36,12 +36,12 @@ theorem fs0_wf (dts : Path → DT) : WF ⟨fs0 dts, none⟩ :=
 /-- ONE STEP, any op, any well-formed state: no crash, the save wrote the image state and nothing else, the
     invariant is re-established and the image is usable afterwards. -/
 theorem step_safe (s : St) (op : Op) (hw : WF s) (ha : allowed s op = true) :
-    StepSpec s op (step .base s op) ∧ WF (step .base s op).2 ∧ Usable (step .base s op).2 :=
+    StepSpec s op (step .owners s op) ∧ WF (step .owners s op).2 ∧ Usable (step .owners s op).2 :=
   let h := step_safe_aux s op hw ha
   ⟨h.1, h.2, usable_of_WF h.2⟩
 
 example : ∃ s op, WF s ∧ allowed s op = true ∧ s.img.isSome ∧ op = .save .aNii :=
-  ⟨(step .base ⟨fs0 fun _ => .i16, none⟩ (.load .aNii true)).2, .save .aNii,
+  ⟨(step .owners ⟨fs0 fun _ => .i16, none⟩ (.load .aNii true)).2, .save .aNii,
    (step_safe _ _ (fs0_wf _) rfl).2.1, by decide, by decide, rfl⟩
 
 /-- HISTORIES of any length (induction over the op list): from a well-formed state, under the guard, no step
@@ -64,8 +64,8 @@ example : allowedRun ⟨fs0 fun _ => .f32, none⟩
 /-- the executable history runner (the function the driver prints) agrees: under the guard it never emits `bad`,
     produces one outcome per op, and ends in a well-formed state -/
 theorem run_never_bad (s : St) (hw : WF s) (ops : List Op) (ha : allowedRun s ops = true) :
-    (∀ o ∈ (run .base s ops).1, o ≠ .bad) ∧ (run .base s ops).1.length = ops.length ∧
-      ∃ f, (run .base s ops).2 = some f ∧ WF f :=
+    (∀ o ∈ (run .owners s ops).1, o ≠ .bad) ∧ (run .owners s ops).1.length = ops.length ∧
+      ∃ f, (run .owners s ops).2 = some f ∧ WF f :=
   run_ok ops s hw ha
 
 /-- WITHOUT the guard: every save (also a layout-changing save onto the image's own memory-mapped source) writes
@@ -76,11 +76,11 @@ theorem run_never_bad (s : St) (hw : WF s) (ops : List Op) (ha : allowedRun s op
     which `writeTo` yields `bad`;  `im2.aff = im.aff` is the `update_header` decision (`outAff_eq`,
     `update_header_affine_close`): the file's affine is the best affine of the reconciled header (SPM2: `.mat`). -/
 theorem save_writes_image_state (s : St) (hw : WF s) (im : Img) (hi : s.img = some im) (q : Path) (mm : Bool) :
-    (step .base s (.save q)).1 = .saved (savedContent im q) ∧
-    ∃ im2, load (step .base s (.save q)).2.fs q mm = some im2 ∧ im2.data = im.data ∧ im2.aff = im.aff ∧
+    (step .owners s (.save q)).1 = .saved (savedContent im q) ∧
+    ∃ im2, load (step .owners s (.save q)).2.fs q mm = some im2 ∧ im2.data = im.data ∧ im2.aff = im.aff ∧
       im2.cls = outCls im.cls q.ext ∧ im2.cls.validExt q.ext = true ∧
       (im2.cls ≠ .spm2 → im2.xf.best = im.aff) ∧
-      ∀ p, p ≠ q → (step .base s (.save q)).2.fs p = s.fs p := by
+      ∀ p, p ≠ q → (step .owners s (.save q)).2.fs p = s.fs p := by
   obtain ⟨fs, img⟩ := s
   simp only at hi
   subst hi
@@ -97,7 +97,7 @@ theorem save_writes_image_state (s : St) (hw : WF s) (im : Img) (hi : s.img = so
     exact h1
 
 example : ∃ s im, WF s ∧ s.img = some im ∧ im.mapped = true :=
-  ⟨(step .base ⟨fs0 fun _ => .f32, none⟩ (.load .aImg true)).2, _, (step_safe _ _ (fs0_wf _) rfl).2.1, rfl, by decide⟩
+  ⟨(step .owners ⟨fs0 fun _ => .f32, none⟩ (.load .aImg true)).2, _, (step_safe _ _ (fs0_wf _) rfl).2.1, rfl, by decide⟩
 
 /-- for the three classes of the original alphabet the class written is the class by extension alone (finite case
     check over the conversion table `outCls`; the table itself is tied to the source by `generated_outCls_agree`) -/
@@ -153,7 +153,7 @@ example : ∃ (close : Nat → Nat → Bool) (im : Img) (q : Path), (∀ a, clos
 /-- any number of direct header edits -/
 def hdrEdits (s : St) : List Nat → St
   | [] => s
-  | k :: ks => hdrEdits (step .base s (.hdrEdit k)).2 ks
+  | k :: ks => hdrEdits (step .owners s (.hdrEdit k)).2 ks
 
 theorem hdrEdits_spec (fs : FS) (im : Img) : ∀ ks : List Nat, ∃ x, hdrEdits ⟨fs, some im⟩ ks = ⟨fs, some { im with xf := x }⟩
   | [] => ⟨im.xf, rfl⟩
@@ -169,10 +169,10 @@ theorem hdrEdits_spec (fs : FS) (im : Img) : ∀ ks : List Nat, ∃ x, hdrEdits 
     This is the `update_header()` decision on the image itself, or on the `from_image` copy for a converting save. -/
 theorem save_ignores_header_affine_edits (s : St) (hw : WF s) (im : Img) (hi : s.img = some im) (q : Path)
     (ks : List Nat) :
-    ∃ c c', (step .base s (.save q)).1 = .saved c ∧ (step .base (hdrEdits s ks) (.save q)).1 = .saved c' ∧
+    ∃ c c', (step .owners s (.save q)).1 = .saved c ∧ (step .owners (hdrEdits s ks) (.save q)).1 = .saved c' ∧
       c.aff = im.aff ∧ c'.aff = im.aff ∧ c'.data = c.data ∧ c'.dt = c.dt ∧ c'.be = c.be ∧ c'.scaled = c.scaled ∧
       c'.tag = c.tag ∧ c'.cls = c.cls ∧
-      ∀ p, p ≠ q → (step .base (hdrEdits s ks) (.save q)).2.fs p = (step .base s (.save q)).2.fs p := by
+      ∀ p, p ≠ q → (step .owners (hdrEdits s ks) (.save q)).2.fs p = (step .owners s (.save q)).2.fs p := by
   obtain ⟨fs, img⟩ := s
   simp only at hi
   subst hi
@@ -193,20 +193,20 @@ theorem save_ignores_header_affine_edits (s : St) (hw : WF s) (im : Img) (hi : s
 /-- the single-edit form of the above, with the observation that an edit AWAY from the image affine onto a header
     that agreed with the image leaves even the transform codes of the file as `_affine2header` sets them -/
 theorem save_ignores_header_affine_edit (s : St) (hw : WF s) (im : Img) (hi : s.img = some im) (q : Path) (k : Nat) :
-    ∃ c c', (step .base s (.save q)).1 = .saved c ∧ (step .base (step .base s (.hdrEdit k)).2 (.save q)).1 = .saved c' ∧
+    ∃ c c', (step .owners s (.save q)).1 = .saved c ∧ (step .owners (step .owners s (.hdrEdit k)).2 (.save q)).1 = .saved c' ∧
       c.aff = im.aff ∧ c'.aff = im.aff ∧ c'.data = c.data ∧ c'.dt = c.dt ∧ c'.be = c.be ∧ c'.scaled = c.scaled ∧
       c'.tag = c.tag ∧ c'.cls = c.cls ∧
-      ∀ p, p ≠ q → (step .base (step .base s (.hdrEdit k)).2 (.save q)).2.fs p = (step .base s (.save q)).2.fs p :=
+      ∀ p, p ≠ q → (step .owners (step .owners s (.hdrEdit k)).2 (.save q)).2.fs p = (step .owners s (.save q)).2.fs p :=
   save_ignores_header_affine_edits s hw im hi q [k]
 
 example : ∃ s im, WF s ∧ s.img = some im ∧ im.hdrAff ≠ im.aff :=
-  ⟨(step .base (step .base ⟨fs0 fun _ => .i16, none⟩ (.load .aNii true)).2 (.hdrEdit 7)).2, _,
+  ⟨(step .owners (step .owners ⟨fs0 fun _ => .i16, none⟩ (.load .aNii true)).2 (.hdrEdit 7)).2, _,
    (step_safe _ _ (step_safe _ _ (fs0_wf _) rfl).2.1 rfl).2.1, rfl, by decide⟩
 
 /-- an edit that leaves the header's best affine EQUAL to the image affine is kept, transform codes included (the
     `allclose` branch): `load a.nii; img.header.set_sform(img.affine, code=3); save b.nii` writes sform_code 3 -/
 theorem header_edit_kept_when_affine_agrees :
-    (run .base ⟨fs0 fun _ => .i16, none⟩ [.load .aNii true, .hdrEdit 0, .save .bNii, .hdrEdit 7, .save .aImg]).1 =
+    (run .owners ⟨fs0 fun _ => .i16, none⟩ [.load .aNii true, .hdrEdit 0, .save .bNii, .hdrEdit 7, .save .aImg]).1 =
       [.loadOk, .unit,
        .saved { cls := .nifti1, data := 0, aff := 0, dt := .i16, be := false, scaled := false, tag := 0, xf := ⟨3, 0, 0, 0⟩ },
        .unit,
@@ -234,7 +234,7 @@ theorem fs0_clsWF (dts : Path → DT) : ClsWF ⟨fs0 dts, none⟩ := by
   cases p <;> rfl
 
 /-- every op preserves the class invariant (no guard needed) -/
-theorem step_clsWF (s : St) (op : Op) (hw : WF s) (hc : ClsWF s) : ClsWF (step .base s op).2 := by
+theorem step_clsWF (s : St) (op : Op) (hw : WF s) (hc : ClsWF s) : ClsWF (step .owners s op).2 := by
   obtain ⟨fs, img⟩ := s
   obtain ⟨hf, hi⟩ := hc
   simp only at hf hi
@@ -326,22 +326,22 @@ theorem self_save_keeps_class (s : St) (hc : ClsWF s) (im : Img) (hi : s.img = s
 
 /-- … along whole histories: the class invariant holds after any allowed history from the harness' file system -/
 theorem run_clsWF : ∀ (ops : List Op) (s : St), WF s → ClsWF s → allowedRun s ops = true →
-    ∃ f, (run .base s ops).2 = some f ∧ ClsWF f
+    ∃ f, (run .owners s ops).2 = some f ∧ ClsWF f
   | [], s, _, hc, _ => ⟨s, rfl, hc⟩
   | op :: rest, s, hw, hc, ha => by
       simp only [allowedRun, Bool.and_eq_true] at ha
       obtain ⟨hspec, hw'⟩ := step_safe_aux s op hw ha.1
       obtain ⟨f, h3, h4⟩ := run_clsWF rest _ hw' (step_clsWF s op hw hc) ha.2
-      have hne : (step .base s op).1 ≠ .bad := hspec.1
-      have hrun : (run .base s (op :: rest)).2 = (run .base (step .base s op).2 rest).2 := by
+      have hne : (step .owners s op).1 ≠ .bad := hspec.1
+      have hrun : (run .owners s (op :: rest)).2 = (run .owners (step .owners s op).2 rest).2 := by
         rw [run]
-        generalize step .base s op = r at hne
+        generalize step .owners s op = r at hne
         obtain ⟨o, s'⟩ := r
         cases o <;> first | rfl | exact absurd rfl hne
       exact ⟨f, by rw [hrun]; exact h3, h4⟩
 
 example : ∃ s im, WF s ∧ ClsWF s ∧ s.img = some im ∧ im.cls = .spm2 ∧ im.src = .sImg :=
-  ⟨(step .base ⟨fs0 fun _ => .i16, none⟩ (.load .sImg true)).2, _, (step_safe _ _ (fs0_wf _) rfl).2.1,
+  ⟨(step .owners ⟨fs0 fun _ => .i16, none⟩ (.load .sImg true)).2, _, (step_safe _ _ (fs0_wf _) rfl).2.1,
    step_clsWF _ _ (fs0_wf _) (fs0_clsWF _), rfl, rfl, rfl⟩
 
 /-! ### the repaired defect -/
@@ -370,23 +370,23 @@ theorem orig_self_overwrite_crashes_all_plain (s : St) (hw : WF s) (im : Img) (h
   rfl
 
 example : ∃ s im, WF s ∧ s.img = some im ∧ im.fileMapped = true ∧ im.src = .aMgh :=
-  ⟨(step .base ⟨fs0 fun _ => .i16, none⟩ (.load .aMgh true)).2, _, (step_safe _ _ (fs0_wf _) rfl).2.1, rfl,
+  ⟨(step .owners ⟨fs0 fun _ => .i16, none⟩ (.load .aMgh true)).2, _, (step_safe _ _ (fs0_wf _) rfl).2.1, rfl,
    by decide, rfl⟩
 
 example : ∃ s im, WF s ∧ s.img = some im ∧ im.fileMapped = true ∧ im.src = .sImg ∧ im.cls = .spm2 :=
-  ⟨(step .base ⟨fs0 fun _ => .i16, none⟩ (.load .sImg true)).2, _, (step_safe _ _ (fs0_wf _) rfl).2.1, rfl,
+  ⟨(step .owners ⟨fs0 fun _ => .i16, none⟩ (.load .sImg true)).2, _, (step_safe _ _ (fs0_wf _) rfl).2.1, rfl,
    by decide, rfl, rfl⟩
 
 /-- CURRENT logic on the same histories: the self-overwrite succeeds and writes the image state.
     (Corollary of `save_writes_image_state` at `q = im.src`, kept as the positive twin of the theorem above.) -/
 theorem current_self_overwrite_ok (s : St) (hw : WF s) (im : Img) (hi : s.img = some im) :
-    (step .base s (.save im.src)).1 = .saved (savedContent im im.src) :=
+    (step .owners s (.save im.src)).1 = .saved (savedContent im im.src) :=
   (save_writes_image_state s hw im hi im.src true).1
 
 /-- the original logic was wrong ONLY there: off the image's own source it coincides with the current logic -/
 theorem orig_safe_off_source (s : St) (hw : WF s) (im : Img) (hi : s.img = some im) (q : Path) (hq : q ≠ im.src) :
-    (step .none s (.save q)).1 = (step .base s (.save q)).1 ∧
-    (step .none s (.save q)).2.fs = (step .base s (.save q)).2.fs := by
+    (step .none s (.save q)).1 = (step .owners s (.save q)).1 ∧
+    (step .none s (.save q)).2.fs = (step .owners s (.save q)).2.fs := by
   obtain ⟨fs, img⟩ := s
   simp only at hi
   subst hi
@@ -394,39 +394,59 @@ theorem orig_safe_off_source (s : St) (hw : WF s) (im : Img) (hi : s.img = some 
   exact ⟨trivial, trivial⟩
 
 example : ∃ s im q, WF s ∧ s.img = some im ∧ q ≠ im.src :=
-  ⟨(step .base ⟨fs0 fun _ => .i16, none⟩ (.load .aNii true)).2, _, .bNii, (step_safe _ _ (fs0_wf _) rfl).2.1, rfl,
+  ⟨(step .owners ⟨fs0 fun _ => .i16, none⟩ (.load .aNii true)).2, _, .bNii, (step_safe _ _ (fs0_wf _) rfl).2.1, rfl,
    by decide⟩
 
-/-! ### the second repair (ae98171b): re-wrapped views of the memory map -/
+/-! ### the second and third repair (ae98171b, 8d96c629): re-wrapped arrays that read the memory map -/
 
-/-- what the re-wrap op builds from a memory-mapped LOADED image: a base-class view (`np.asarray(img.dataobj)`, `[::1]`,
-    `.T.T`, `.view(np.ndarray)`, `np.asfortranarray`), an np.memmap instance (`np.asanyarray`, `[..., :]`), the proxy, or an
-    owning copy; `get_fdata()` yields the memmap itself or an owning array -/
+/-- the kind of array each re-wrap op of the alphabet builds from a memory-mapped LOADED image
+    (`none`: an array that owns its memory, or — `fdata` — either an np.memmap instance or an owning array) -/
+def Wrap.kindOfMapped : Wrap → Option VKind
+  | .plainView => some .plain
+  | .mapInst => some .inst
+  | .proxy => some .inst
+  | .hiddenView => some .hidden
+  | .rawMap => some .hidden
+  | .copy => none
+  | .fdata => none
+
+/-- what the re-wrap op builds from a memory-mapped LOADED image, for each of the seven array kinds of the op
+    alphabet: a base-class view reachable through ndarray `.base` links (`np.asarray(img.dataobj)`, `[::1]`, `.T.T`,
+    `.view(np.ndarray)`, `np.asfortranarray`), an np.memmap instance (`np.asanyarray`, `[..., :]`), the proxy, an owning
+    copy, a view that reaches the map only through a memoryview / array-interface holder (`as_strided`,
+    `np.asarray(memoryview(m))`, `sliding_window_view`, `np.frombuffer(mmap.mmap(file))`); `get_fdata()` yields the
+    memmap itself or an owning array -/
 theorem wrap_of_mapped_proxy {fs : FS} {im : Img} (h : ImgOk fs im) (hp : im.arr = .proxy) (hm : im.mapped = true) :
-    wrapImg fs im .plainView = some (rewrapped im (.view false)) ∧
-    wrapImg fs im .mapInst = some (rewrapped im (.view true)) ∧
+    wrapImg fs im .plainView = some (rewrapped im (.view .plain)) ∧
+    wrapImg fs im .mapInst = some (rewrapped im (.view .inst)) ∧
     wrapImg fs im .copy = some (rewrapped im (.owned im.data im.arrFloat)) ∧
     wrapImg fs im .proxy = some (rewrapped im .proxy) ∧
-    (wrapImg fs im .fdata = some (rewrapped im (.view true)) ∨
-     wrapImg fs im .fdata = some (rewrapped im (.owned im.data true))) := by
+    (wrapImg fs im .fdata = some (rewrapped im (.view .inst)) ∨
+     wrapImg fs im .fdata = some (rewrapped im (.owned im.data true))) ∧
+    wrapImg fs im .hiddenView = some (rewrapped im (.view .hidden)) ∧
+    wrapImg fs im .rawMap = some (rewrapped im (.view .hidden)) := by
   have hb : im.backed = true := by simp [Img.backed, Arr.backed, hp]
-  have hmat : materialise fs im = some (.ref im.src im.srcDt im.srcBe im.srcScaled true) := by
+  have hmat : materialise fs im = some (.ref im.src im.srcDt im.srcBe im.srcScaled .inst) := by
     rw [materialise_ok h]; simp [Img.matOf, hp, hm]
   -- the constructor step (`wrapArr`) …
-  have a1 : wrapArr fs im .plainView = some (rewrapped im (.view false)) := by simp [wrapArr, hmat]; rfl
-  have a2 : wrapArr fs im .mapInst = some (rewrapped im (.view true)) := by simp [wrapArr, hmat]
+  have a1 : wrapArr fs im .plainView = some (rewrapped im (.view .plain)) := by simp [wrapArr, hmat]
+  have a2 : wrapArr fs im .mapInst = some (rewrapped im (.view .inst)) := by simp [wrapArr, hmat]
   have a3 : wrapArr fs im .copy = some (rewrapped im (.owned im.data im.arrFloat)) := by simp [wrapArr, hmat, h.1 hb]
   have a4 : wrapArr fs im .proxy = some (rewrapped im .proxy) := by simp [wrapArr, hp]
-  have a5 : wrapArr fs im .fdata = some (rewrapped im (.view true)) ∨
+  have a5 : wrapArr fs im .fdata = some (rewrapped im (.view .inst)) ∨
       wrapArr fs im .fdata = some (rewrapped im (.owned im.data true)) := by
     obtain ⟨ca, hg, _⟩ := getFdata_ok h false
     unfold wrapArr
     rw [hg]
-    simp only
+    simp only [hp]
     cases ca with
     | alias w => cases w <;> simp
     | owned d w => simp
     | none => simp
+  have a6 : wrapArr fs im .hiddenView = some (rewrapped im (.view .hidden)) := by simp [wrapArr, hmat]
+  have a7 : wrapArr fs im .rawMap = some (rewrapped im (.view .hidden)) := by
+    unfold wrapArr
+    split <;> simp_all
   -- … and the touch of the new image's data (`wrapImg`): every result is usable
   have lift : ∀ k a, wrapArr fs im k = some (rewrapped im a) → wrapImg fs im k = some (rewrapped im a) := by
     intro k a hk
@@ -435,49 +455,46 @@ theorem wrap_of_mapped_proxy {fs : FS} {im : Img} (h : ImgOk fs im) (hp : im.arr
     simp only [Option.some.injEq] at hk
     rw [← hk]
     exact wrapImg_of_wrapArr h1' h2'
-  exact ⟨lift _ _ a1, lift _ _ a2, lift _ _ a3, lift _ _ a4, a5.elim (fun e => Or.inl (lift _ _ e)) (fun e => Or.inr (lift _ _ e))⟩
+  exact ⟨lift _ _ a1, lift _ _ a2, lift _ _ a3, lift _ _ a4,
+    a5.elim (fun e => Or.inl (lift _ _ e)) (fun e => Or.inr (lift _ _ e)), lift _ _ a6, lift _ _ a7⟩
 
-/-- THE INSTANCE-CHECK GUARD (`isinstance(data, np.memmap)`, fae418e9 … ae98171b^) crashes EXACTLY for the base-class
-    view variants: after re-wrapping a memory-mapped loaded image with array kind `k`, saving the new image onto the
-    source file reads through the truncated file iff `k` is a plain view. -/
-theorem orig_view_overwrite_crashes (s : St) (hw : WF s) (im : Img) (hi : s.img = some im) (hp : im.arr = .proxy)
-    (hm : im.mapped = true) (k : Wrap) :
-    (step .inst (step .inst s (.wrap k)).2 (.save im.src)).1 = .bad ↔ k = .plainView := by
+/-- ANY guard that copies np.memmap instances (`inst`, `baseNd`, `owners`): after re-wrapping a memory-mapped loaded
+    image with array kind `k` (the seven kinds of the op alphabet), saving the new image onto the source file reads
+    through the truncated file iff the array built is a view of a kind the guard does not copy. -/
+theorem guard_view_overwrite_crashes (g : Guard) (hgi : g.copies .inst = true) (s : St) (hw : WF s) (im : Img)
+    (hi : s.img = some im) (hp : im.arr = .proxy) (hm : im.mapped = true) (k : Wrap) :
+    (step g (step g s (.wrap k)).2 (.save im.src)).1 = .bad ↔
+      ∃ vk, k.kindOfMapped = some vk ∧ g.copies vk = false := by
   obtain ⟨fs, img⟩ := s
   simp only at hi
   subst hi
   have hok : ImgOk fs im := hw.2 im rfl
-  obtain ⟨h1, h2, h3, h4, h5⟩ := wrap_of_mapped_proxy hok hp hm
-  have hb : im.backed = true := by simp [Img.backed, Arr.backed, hp]
+  obtain ⟨h1, h2, h3, h4, h5, h6, h7⟩ := wrap_of_mapped_proxy hok hp hm
   -- outcome of the save for each array the op can have produced
-  have bad_view : ∀ a, a = Arr.view false → ImgOk fs (rewrapped im a) →
-      (step .inst ⟨fs, some (rewrapped im a)⟩ (.save im.src)).1 = .bad := by
-    intro a ha hoka
-    subst ha
-    have := writeTo_guard_self (g := .inst) hoka false (by simp [Img.matOf, rewrapped]) rfl
+  have bad_view : ∀ vk, g.copies vk = false → ImgOk fs (rewrapped im (.view vk)) →
+      (step g ⟨fs, some (rewrapped im (.view vk))⟩ (.save im.src)).1 = .bad := by
+    intro vk hc hoka
+    have := writeTo_guard_self (g := g) hoka vk (by simp [Img.matOf, rewrapped]) hc
     simp only [rewrapped] at this
     simp only [step, withImg, save, rewrapped]
     revert this
-    generalize writeTo Guard.inst fs _ im.src = r
+    generalize writeTo g fs _ im.src = r
     obtain ⟨o, fs'⟩ := r
     intro hbad
     simp only at hbad
     subst hbad
     rfl
-  have ok_other : ∀ a, a ≠ Arr.view false → ImgOk fs (rewrapped im a) →
-      (step .inst ⟨fs, some (rewrapped im a)⟩ (.save im.src)).1 ≠ .bad := by
+  have ok_other : ∀ a, (∀ vk, a = Arr.view vk → g.copies vk = true) → ImgOk fs (rewrapped im a) →
+      (step g ⟨fs, some (rewrapped im a)⟩ (.save im.src)).1 ≠ .bad := by
     intro a ha hoka
-    have heq : writeTo .inst fs (rewrapped im a) im.src = writeTo .base fs (rewrapped im a) im.src := by
+    have heq : writeTo g fs (rewrapped im a) im.src = writeTo .owners fs (rewrapped im a) im.src := by
       apply writeTo_guard_eq hoka
       cases a with
       | owned d fl => left; rfl
       | proxy =>
           right; right
-          exact ⟨true, by simp [Img.matOf, rewrapped, Img.mapped] at hm ⊢; simp [hm], rfl⟩
-      | view inst =>
-          cases inst
-          · exact absurd rfl ha
-          · right; right; exact ⟨true, by simp [Img.matOf, rewrapped], rfl⟩
+          exact ⟨.inst, by simp [Img.matOf, rewrapped, Img.mapped] at hm ⊢; simp [hm], hgi⟩
+      | view v => right; right; exact ⟨v, by simp [Img.matOf, rewrapped], ha v rfl⟩
     simp only [step, withImg, save]
     rw [heq, writeTo_cur hoka]
     simp
@@ -487,59 +504,99 @@ theorem orig_view_overwrite_crashes (s : St) (hw : WF s) (im : Img) (hi : s.img 
     rw [h1'] at ha
     simp only [Option.some.injEq] at ha
     rw [← ha]; exact h2'
+  -- a view of kind vk: crashes iff the guard does not copy vk
+  have view_case : ∀ vk, wrapImg fs im k = some (rewrapped im (.view vk)) →
+      ((step g (step g ⟨fs, some im⟩ (.wrap k)).2 (.save im.src)).1 = .bad ↔ g.copies vk = false) := by
+    intro vk hwk
+    have hoka := okOf _ hwk
+    simp only [step, withImg, hwk]
+    cases hc : g.copies vk
+    · have hbad := bad_view vk hc hoka
+      simp only [step, withImg] at hbad
+      exact ⟨fun _ => rfl, fun _ => hbad⟩
+    · have hne := ok_other _ (fun v e => by simp at e; rw [← e]; exact hc) hoka
+      simp only [step, withImg] at hne
+      exact ⟨fun hbad => absurd hbad hne, fun h => nomatch h⟩
+  have never : ∀ a, (∀ vk, a = Arr.view vk → g.copies vk = true) → wrapImg fs im k = some (rewrapped im a) →
+      (step g (step g ⟨fs, some im⟩ (.wrap k)).2 (.save im.src)).1 ≠ .bad := by
+    intro a ha hwk
+    have hne := ok_other a ha (okOf _ hwk)
+    simp only [step, withImg, hwk]
+    simp only [step, withImg] at hne
+    exact hne
   cases k with
   | plainView =>
-      refine ⟨fun _ => rfl, fun _ => ?_⟩
-      have hbad := bad_view _ rfl (okOf _ h1)
-      simp only [step, withImg] at hbad
-      simp only [step, withImg, h1]
-      exact hbad
+      rw [view_case _ h1]
+      exact ⟨fun h => ⟨.plain, rfl, h⟩, fun ⟨vk, e, h⟩ => by simp [Wrap.kindOfMapped] at e; rw [e]; exact h⟩
   | mapInst =>
-      refine ⟨fun hbad => ?_, fun h => nomatch h⟩
-      have hne := ok_other _ (by simp) (okOf _ h2)
-      simp only [step, withImg, h2] at hbad
-      simp only [step, withImg] at hne
-      exact absurd hbad hne
+      rw [view_case _ h2]
+      exact ⟨fun h => ⟨.inst, rfl, h⟩, fun ⟨vk, e, h⟩ => by simp [Wrap.kindOfMapped] at e; rw [e]; exact h⟩
+  | hiddenView =>
+      rw [view_case _ h6]
+      exact ⟨fun h => ⟨.hidden, rfl, h⟩, fun ⟨vk, e, h⟩ => by simp [Wrap.kindOfMapped] at e; rw [e]; exact h⟩
+  | rawMap =>
+      rw [view_case _ h7]
+      exact ⟨fun h => ⟨.hidden, rfl, h⟩, fun ⟨vk, e, h⟩ => by simp [Wrap.kindOfMapped] at e; rw [e]; exact h⟩
   | copy =>
-      refine ⟨fun hbad => ?_, fun h => nomatch h⟩
-      have hne := ok_other _ (by simp) (okOf _ h3)
-      simp only [step, withImg, h3] at hbad
-      simp only [step, withImg] at hne
-      exact absurd hbad hne
+      refine ⟨fun hbad => absurd hbad (never _ (fun vk e => by simp at e) h3), fun ⟨vk, e, _⟩ => by simp [Wrap.kindOfMapped] at e⟩
   | proxy =>
-      refine ⟨fun hbad => ?_, fun h => nomatch h⟩
-      have hne := ok_other _ (by simp) (okOf _ h4)
-      simp only [step, withImg, h4] at hbad
-      simp only [step, withImg] at hne
-      exact absurd hbad hne
+      refine ⟨fun hbad => absurd hbad (never _ (fun vk e => by simp at e) h4), fun ⟨vk, e, h⟩ => ?_⟩
+      simp [Wrap.kindOfMapped] at e
+      rw [← e, hgi] at h
+      exact absurd h (by simp)
   | fdata =>
-      refine ⟨fun hbad => ?_, fun h => nomatch h⟩
+      refine ⟨fun hbad => ?_, fun ⟨vk, e, _⟩ => by simp [Wrap.kindOfMapped] at e⟩
       rcases h5 with h5 | h5
-      · have hne := ok_other _ (by simp) (okOf _ h5)
-        simp only [step, withImg, h5] at hbad
-        simp only [step, withImg] at hne
-        exact absurd hbad hne
-      · have hne := ok_other _ (by simp) (okOf _ h5)
-        simp only [step, withImg, h5] at hbad
-        simp only [step, withImg] at hne
-        exact absurd hbad hne
+      · exact absurd hbad (never _ (fun vk e => by simp at e; rw [← e]; exact hgi) h5)
+      · exact absurd hbad (never _ (fun vk e => by simp at e) h5)
+
+/-- THE INSTANCE-CHECK GUARD (`isinstance(data, np.memmap)`, fae418e9 … ae98171b^): over the seven array kinds of the
+    re-wrap op, the self-save crashes exactly for the views that are not np.memmap instances -/
+theorem orig_view_overwrite_crashes (s : St) (hw : WF s) (im : Img) (hi : s.img = some im) (hp : im.arr = .proxy)
+    (hm : im.mapped = true) (k : Wrap) :
+    (step .inst (step .inst s (.wrap k)).2 (.save im.src)).1 = .bad ↔
+      (k = .plainView ∨ k = .hiddenView ∨ k = .rawMap) := by
+  rw [guard_view_overwrite_crashes .inst rfl s hw im hi hp hm k]
+  cases k <;> simp [Wrap.kindOfMapped, Guard.copies]
+
+/-- THE NDARRAY-BASE-CHAIN GUARD (`maps_file` of ae98171b … 8d96c629^): over the seven array kinds of the re-wrap op,
+    the self-save crashes exactly for the views whose owner chain passes through a memoryview / array-interface
+    holder (`as_strided`, `memoryview`, `sliding_window_view`, `np.frombuffer(mmap.mmap)`) -/
+theorem baseNd_view_overwrite_crashes (s : St) (hw : WF s) (im : Img) (hi : s.img = some im) (hp : im.arr = .proxy)
+    (hm : im.mapped = true) (k : Wrap) :
+    (step .baseNd (step .baseNd s (.wrap k)).2 (.save im.src)).1 = .bad ↔ (k = .hiddenView ∨ k = .rawMap) := by
+  rw [guard_view_overwrite_crashes .baseNd rfl s hw im hi hp hm k]
+  cases k <;> simp [Wrap.kindOfMapped, Guard.copies]
 
 example : ∃ s im, WF s ∧ s.img = some im ∧ im.arr = .proxy ∧ im.mapped = true :=
-  ⟨(step .base ⟨fs0 fun _ => .i16, none⟩ (.load .aImg true)).2, _, (step_safe _ _ (fs0_wf _) rfl).2.1, rfl, rfl, by decide⟩
+  ⟨(step .owners ⟨fs0 fun _ => .i16, none⟩ (.load .aImg true)).2, _, (step_safe _ _ (fs0_wf _) rfl).2.1, rfl, rfl, by decide⟩
 
-/-- the concrete history of the defect: `img = load('a.nii'); new = Nifti1Image(np.asarray(img.dataobj), img.affine,
-    img.header); save(new, 'a.nii')` under the instance-check guard — and under the current guard -/
+/-- the concrete histories of the two defects, under the guard of the time and under the current guard:
+    `img = load('a.nii'); new = Nifti1Image(np.asarray(img.dataobj), img.affine, img.header); save(new, 'a.nii')`, and the
+    same with `as_strided(np.asanyarray(img.dataobj))` / `np.frombuffer(mmap.mmap(...))` of a `mmap=False` load -/
 theorem orig_view_overwrite_crashes_witness :
     (run .inst ⟨fs0 fun _ => .i16, none⟩ [.load .aNii true, .wrap .plainView, .save .aNii]).1 = [.loadOk, .unit, .bad] ∧
-    (run .base ⟨fs0 fun _ => .i16, none⟩ [.load .aNii true, .wrap .plainView, .save .aNii]).1 =
-      [.loadOk, .unit, .saved (initContent .aNii .i16 false false)] := by decide
+    (run .owners ⟨fs0 fun _ => .i16, none⟩ [.load .aNii true, .wrap .plainView, .save .aNii]).1 =
+      [.loadOk, .unit, .saved (initContent .aNii .i16 false false)] ∧
+    (run .baseNd ⟨fs0 fun _ => .i16, none⟩ [.load .aNii true, .wrap .plainView, .save .aNii]).1 =
+      [.loadOk, .unit, .saved (initContent .aNii .i16 false false)] ∧
+    (run .baseNd ⟨fs0 fun _ => .i16, none⟩ [.load .aNii true, .wrap .hiddenView, .save .aNii]).1 = [.loadOk, .unit, .bad] ∧
+    (run .baseNd ⟨fs0 fun _ => .i16, none⟩ [.load .aMgh false, .wrap .rawMap, .save .aMgh]).1 = [.loadOk, .unit, .bad] ∧
+    (run .owners ⟨fs0 fun _ => .i16, none⟩ [.load .aNii true, .wrap .hiddenView, .save .aNii]).1 =
+      [.loadOk, .unit, .saved (initContent .aNii .i16 false false)] ∧
+    (run .owners ⟨fs0 fun _ => .i16, none⟩ [.load .aMgh false, .wrap .rawMap, .save .aMgh]).1 =
+      [.loadOk, .unit, .saved (initContent .aMgh .i16 false false)] := by decide
 
-/-- CURRENT guard (`maps_file`: follows `.base`): for EVERY array kind the re-wrapped image saved onto the source file
-    (or anywhere) writes the image state, the new image has no filename until then, and the state stays well formed -/
+/-- CURRENT guard (`maps_file` of 8d96c629: follows `memoryview.obj` and any `.base`): for each of the seven array
+    kinds of the re-wrap op — in particular all THREE kinds of view (np.memmap instance, ndarray-base view, view
+    through a memoryview / array-interface holder) — and in ANY well-formed state (also a live image that is already
+    a view), the re-wrapped image saved onto the source file (or anywhere) writes the image state, the new image has
+    no filename until then, and the state stays well formed.  (Arrays that reach a map in a way outside this alphabet
+    are not covered: the generated probe table `generated_guard_agrees` is what ties `maps_file` to the three kinds.) -/
 theorem current_view_overwrite_ok (s : St) (hw : WF s) (im : Img) (hi : s.img = some im) (k : Wrap) (q : Path) :
-    ∃ im', (step .base s (.wrap k)) = (.unit, ⟨s.fs, some im'⟩) ∧ WF ⟨s.fs, some im'⟩ ∧
+    ∃ im', (step .owners s (.wrap k)) = (.unit, ⟨s.fs, some im'⟩) ∧ WF ⟨s.fs, some im'⟩ ∧
       im'.data = im.data ∧ im'.aff = im.aff ∧ im'.dt = im.dt ∧ im'.tag = im.tag ∧ im'.cls = im.cls ∧ im'.fname = none ∧
-      (step .base ⟨s.fs, some im'⟩ (.save q)).1 = .saved (savedContent im' q) ∧
+      (step .owners ⟨s.fs, some im'⟩ (.save q)).1 = .saved (savedContent im' q) ∧
       (savedContent im' q).data = im.data ∧ (savedContent im' q).aff = im.aff := by
   obtain ⟨fs, img⟩ := s
   simp only at hi
@@ -550,17 +607,34 @@ theorem current_view_overwrite_ok (s : St) (hw : WF s) (im : Img) (hi : s.img = 
   · simp only [Option.some.injEq] at h'; subst h'; exact hok'
   · simp only [step, withImg, save_cur hok']
 
-/-- the instance-check guard was wrong ONLY for plain views saved onto the file they map: for every other array kind,
-    and for every other target, it coincides with the current guard -/
-theorem inst_guard_safe_off_views (s : St) (hw : WF s) (im : Img) (hi : s.img = some im) (q : Path)
-    (h : q ≠ im.src ∨ im.arr ≠ .view false) :
-    (step .inst s (.save q)).1 = (step .base s (.save q)).1 ∧
-    (step .inst s (.save q)).2.fs = (step .base s (.save q)).2.fs := by
+/-- the current guard copies every kind of view: a view image of ANY of the three kinds, saved onto the file it maps,
+    writes its state (the statement `current_self_overwrite_ok` instantiated at the three view kinds) -/
+theorem current_view_kinds_ok (s : St) (hw : WF s) (im : Img) (hi : s.img = some im) (vk : VKind)
+    (_hv : im.arr = .view vk) :
+    (step .owners s (.save im.src)).1 = .saved (savedContent im im.src) ∧ Guard.copies .owners vk = true :=
+  ⟨current_self_overwrite_ok s hw im hi, rfl⟩
+
+example : ∀ vk : VKind, ∃ s im, WF s ∧ s.img = some im ∧ im.arr = .view vk := by
+  intro vk
+  cases vk
+  · exact ⟨(step .owners (step .owners ⟨fs0 fun _ => .i16, none⟩ (.load .aNii true)).2 (.wrap .mapInst)).2, _,
+      (step_safe _ _ (step_safe _ _ (fs0_wf _) rfl).2.1 rfl).2.1, rfl, rfl⟩
+  · exact ⟨(step .owners (step .owners ⟨fs0 fun _ => .i16, none⟩ (.load .aNii true)).2 (.wrap .plainView)).2, _,
+      (step_safe _ _ (step_safe _ _ (fs0_wf _) rfl).2.1 rfl).2.1, rfl, rfl⟩
+  · exact ⟨(step .owners (step .owners ⟨fs0 fun _ => .i16, none⟩ (.load .aNii false)).2 (.wrap .rawMap)).2, _,
+      (step_safe _ _ (step_safe _ _ (fs0_wf _) rfl).2.1 rfl).2.1, rfl, rfl⟩
+
+/-- a guard that copies np.memmap instances is wrong ONLY for the view kinds it does not copy, saved onto the file
+    they map: in every other case it coincides with the current guard -/
+theorem guard_safe_off_uncopied_views (g : Guard) (hgi : g.copies .inst = true) (s : St) (hw : WF s) (im : Img)
+    (hi : s.img = some im) (q : Path) (h : q ≠ im.src ∨ ∀ vk, im.arr = .view vk → g.copies vk = true) :
+    (step g s (.save q)).1 = (step .owners s (.save q)).1 ∧
+    (step g s (.save q)).2.fs = (step .owners s (.save q)).2.fs := by
   obtain ⟨fs, img⟩ := s
   simp only at hi
   subst hi
   have hok : ImgOk fs im := hw.2 im rfl
-  have heq : writeTo .inst fs im q = writeTo .base fs im q := by
+  have heq : writeTo g fs im q = writeTo .owners fs im q := by
     apply writeTo_guard_eq hok
     rcases h with h | h
     · exact Or.inr (Or.inl h)
@@ -568,17 +642,30 @@ theorem inst_guard_safe_off_views (s : St) (hw : WF s) (im : Img) (hi : s.img = 
       | owned d fl => left; simp [Img.fileMapped, ha]
       | proxy =>
           by_cases hm : im.mapped = true
-          · right; right; exact ⟨true, by simp [Img.matOf, ha, hm], rfl⟩
+          · right; right; exact ⟨.inst, by simp [Img.matOf, ha, hm], hgi⟩
           · left; simp [Img.fileMapped, ha, hm]
-      | view inst =>
-          cases inst
-          · exact absurd ha h
-          · right; right; exact ⟨true, by simp [Img.matOf, ha], rfl⟩
+      | view v => right; right; exact ⟨v, by simp [Img.matOf, ha], h v ha⟩
   simp only [step, withImg, save, heq]
   exact ⟨trivial, trivial⟩
 
-example : ∃ s im, WF s ∧ s.img = some im ∧ im.arr = .view false ∧ im.fname = none :=
-  ⟨(step .base (step .base ⟨fs0 fun _ => .i16, none⟩ (.load .aNii true)).2 (.wrap .plainView)).2, _,
+/-- the instance-check guard was wrong ONLY for views that are not np.memmap instances, saved onto the file they map -/
+theorem inst_guard_safe_off_views (s : St) (hw : WF s) (im : Img) (hi : s.img = some im) (q : Path)
+    (h : q ≠ im.src ∨ ∀ vk, im.arr = .view vk → vk = .inst) :
+    (step .inst s (.save q)).1 = (step .owners s (.save q)).1 ∧
+    (step .inst s (.save q)).2.fs = (step .owners s (.save q)).2.fs :=
+  guard_safe_off_uncopied_views .inst rfl s hw im hi q
+    (h.imp id (fun h vk e => by rw [h vk e]; rfl))
+
+/-- the ndarray-base-chain guard was wrong ONLY for hidden views saved onto the file they map -/
+theorem baseNd_guard_safe_off_hidden (s : St) (hw : WF s) (im : Img) (hi : s.img = some im) (q : Path)
+    (h : q ≠ im.src ∨ im.arr ≠ .view .hidden) :
+    (step .baseNd s (.save q)).1 = (step .owners s (.save q)).1 ∧
+    (step .baseNd s (.save q)).2.fs = (step .owners s (.save q)).2.fs :=
+  guard_safe_off_uncopied_views .baseNd rfl s hw im hi q
+    (h.imp id (fun h vk e => by cases vk <;> first | rfl | exact absurd e h))
+
+example : ∃ s im, WF s ∧ s.img = some im ∧ im.arr = .view .plain ∧ im.fname = none :=
+  ⟨(step .owners (step .owners ⟨fs0 fun _ => .i16, none⟩ (.load .aNii true)).2 (.wrap .plainView)).2, _,
    (step_safe _ _ (step_safe _ _ (fs0_wf _) rfl).2.1 rfl).2.1, rfl, rfl, rfl⟩
 
 /-! ### what the current code still does wrong (open findings; why the guard is needed) -/
@@ -586,7 +673,7 @@ example : ∃ s im, WF s ∧ s.img = some im ∧ im.arr = .view false ∧ im.fna
 /-- `img = load('a.nii')  # int16;  img.set_data_dtype(int32);  save(img, 'a.nii');  img.get_fdata()` — the file
     written is right, the live image reads it through its stale proxy. -/
 theorem current_stale_source_counterexample :
-    (run .base ⟨fs0 fun _ => .i16, none⟩ [.load .aNii false, .setDt .i32, .save .aNii, .fdata false]).1 =
+    (run .owners ⟨fs0 fun _ => .i16, none⟩ [.load .aNii false, .setDt .i32, .save .aNii, .fdata false]).1 =
       [.loadOk, .dtOk, .saved { cls := .nifti1, data := 0, aff := 0, dt := .i32, be := false, scaled := false, tag := 0,
                                 xf := ⟨2, 0, 0, 0⟩ }, .bad] ∧
     allowedRun ⟨fs0 fun _ => .i16, none⟩ [.load .aNii false, .setDt .i32, .save .aNii, .fdata false] = false := by
@@ -595,14 +682,14 @@ theorem current_stale_source_counterexample :
 /-- float64 + mmap: the cached `get_fdata()` array IS the memmap of the source; after a dtype-changing self-save
     it maps a shorter, re-laid-out file (SIGBUS in the real process). -/
 theorem current_stale_fdata_alias_counterexample :
-    (run .base ⟨fs0 fun _ => .f64, none⟩ [.load .aNii true, .fdata false, .setDt .i16, .save .aNii, .fdata false]).1 =
+    (run .owners ⟨fs0 fun _ => .f64, none⟩ [.load .aNii true, .fdata false, .setDt .i16, .save .aNii, .fdata false]).1 =
       [.loadOk, .fdata 0, .dtOk, .saved { cls := .nifti1, data := 0, aff := 0, dt := .i16, be := false, scaled := true,
                                            tag := 0, xf := ⟨2, 0, 0, 0⟩ }, .bad] := by
   decide
 
 /-- the same through `get_fdata(dtype=np.float32)` on a float32 SPM2 pair -/
 theorem current_stale_fdata_alias_f32_counterexample :
-    (run .base ⟨fs0 fun _ => .f32, none⟩ [.load .sImg true, .fdata true, .setDt .i16, .save .sImg, .fdata true]).1 =
+    (run .owners ⟨fs0 fun _ => .f32, none⟩ [.load .sImg true, .fdata true, .setDt .i16, .save .sImg, .fdata true]).1 =
       [.loadOk, .fdata 6, .dtOk, .saved { cls := .spm2, data := 6, aff := 6, dt := .i16, be := false, scaled := true,
                                            tag := 0, xf := ⟨0, 0, 0, 0⟩ }, .bad] := by
   decide
@@ -610,7 +697,7 @@ theorem current_stale_fdata_alias_f32_counterexample :
 /-- the guard is TIGHT: a save onto the image's own source that changes the layout always leaves the live image
     unusable (whatever its cache state) — this is exactly the open finding, nothing else is excluded. -/
 theorem guard_is_tight (s : St) (hw : WF s) (im : Img) (hi : s.img = some im) (hk : layoutKept im im.src = false) :
-    probe (step .base s (.save im.src)).2 = none := by
+    probe (step .owners s (.save im.src)).2 = none := by
   obtain ⟨fs, img⟩ := s
   simp only at hi
   subst hi
@@ -641,7 +728,7 @@ theorem guard_is_tight (s : St) (hw : WF s) (im : Img) (hi : s.img = some im) (h
       rw [h0]
       cases ha : im.arr with
       | owned d fl => simp [Img.backed, Arr.backed, ha] at hbk
-      | view inst => simp [deref, hr]
+      | view v => simp [deref, hr]
       | proxy => simp [hr]
     unfold probe
     simp only [hmd]
@@ -653,7 +740,7 @@ theorem guard_is_tight (s : St) (hw : WF s) (im : Img) (hi : s.img = some im) (h
   · simp only [hc, if_false]; exact key _ rfl rfl rfl rfl rfl
 
 example : ∃ s im, WF s ∧ s.img = some im ∧ layoutKept im im.src = false :=
-  ⟨(step .base (step .base ⟨fs0 fun _ => .i16, none⟩ (.load .aNii true)).2 (.setDt .i32)).2, _,
+  ⟨(step .owners (step .owners ⟨fs0 fun _ => .i16, none⟩ (.load .aNii true)).2 (.setDt .i32)).2, _,
    (step_safe _ _ (step_safe _ _ (fs0_wf _) rfl).2.1 rfl).2.1, rfl, by decide⟩
 
 /-! ### tables regenerated from the working tree -/
@@ -677,13 +764,29 @@ theorem generated_tables_agree :
     Gen.analyzeCopiesBeforeOpen = true ∧ Gen.mghCopiesBeforeOpen = true := by decide
 
 def guardCode : Guard → Nat
-  | .none => 0 | .inst => 1 | .base => 2
+  | .none => 0 | .inst => 1 | .baseNd => 2 | .owners => 3
 
-/-- the copy guard of BOTH `to_file_map` bodies is the one every `step .base` theorem is about: `maps_file(data)`, and
-    `volumeutils.maps_file` (AST) is a loop over `.base` with an `np.memmap` instance test that ends in an `mmap.mmap`
-    test (0 no guard / 1 `isinstance(data, np.memmap)` / 2 follows `.base`) -/
+/-- what the model says the current guard answers for a probe array: kind code 0 np.memmap instance / 1 ndarray-base
+    view / 2 view through a memoryview or array-interface holder (all copied), 3 array that owns its memory (not) -/
+def modelMapsFile (kind : Nat) : Option Bool :=
+  match kind with
+  | 0 => some (Guard.copies .owners .inst)
+  | 1 => some (Guard.copies .owners .plain)
+  | 2 => some (Guard.copies .owners .hidden)
+  | 3 => some false
+  | _ => none
+
+/-- the copy guard of BOTH `to_file_map` bodies is the one every `step .owners` theorem is about: `maps_file(data)` with
+    `volumeutils.maps_file` (AST) the loop over owners — np.memmap / mmap.mmap instance test, `memoryview` → `.obj`,
+    else `getattr(arr, 'base', None)` — (0 no guard / 1 `isinstance(data, np.memmap)` / 2 ndarray `.base` chain /
+    3 owner chain);  and the PROBE TABLE of the real `maps_file` — one array of each kind: memmap, `np.asarray(m)`,
+    `m[::1]` view, `np.frombuffer(mmap.mmap)`, `np.asarray(memoryview(m))`, `as_strided(m)`, `sliding_window_view(m)`, an
+    owning copy, a fresh array — agrees row by row with the memory-sharing ground truth and with `Guard.copies .owners`,
+    and covers all four kinds -/
 theorem generated_guard_agrees :
-    guardCode .base = Gen.analyzeGuard ∧ guardCode .base = Gen.mghGuard ∧ Gen.mapsFileFollowsBase = true := by decide
+    guardCode .owners = Gen.analyzeGuard ∧ guardCode .owners = Gen.mghGuard ∧
+    Gen.mapsFileProbe.all (fun r => r.2.2 == r.2.1 && modelMapsFile r.1 == some r.2.1) = true ∧
+    [0, 1, 2, 3].all (fun k => Gen.mapsFileProbe.any (fun r => r.1 == k)) = true := by decide
 
 /-- `klass.valid_exts` looked up in the generated `all_image_classes` table -/
 def genValid (c e : Nat) : Bool := (Gen.classTable.find? (fun r => r.1 == c)).any (fun r => r.2.contains e)
